@@ -8,7 +8,6 @@ import (
 	"strings"
 
 	"github.com/AdguardTeam/AdGuardDNS/internal/dnsserver"
-	"github.com/AdguardTeam/AdGuardDNS/internal/dnssvc"
 	"github.com/AdguardTeam/AdGuardDNS/internal/geoip"
 	"github.com/AdguardTeam/AdGuardDNS/verifh/hlib"
 	"github.com/AdguardTeam/AdGuardDNS/verifh/hlib/stack"
@@ -60,7 +59,7 @@ func newConcRunner(sc *scenario) (rn *concRunner) {
 	g := &sc.Geo
 	geoData := func(_ string, ip netip.Addr) (*geoip.Location, error) { return g.loc(ip), nil }
 	rn.st = stack.New(&stack.Config{
-		Cache:     &dnssvc.CacheConfig{Type: dnssvc.CacheTypeECS, ECSCount: 10000, NoECSCount: 10000},
+		Cache:     cacheConfFromYAML(10000, 10000),
 		GeoData:   geoData,
 		GeoSubnet: g.subnet,
 		Upstream: dnsserver.HandlerFunc(func(ctx context.Context, rw dnsserver.ResponseWriter, req *dns.Msg) error {
@@ -84,7 +83,7 @@ func newConcRunner(sc *scenario) (rn *concRunner) {
 		}),
 	})
 	rn.twin = stack.New(&stack.Config{
-		Cache:     &dnssvc.CacheConfig{Type: dnssvc.CacheTypeECS, ECSCount: 10, NoECSCount: 10},
+		Cache:     cacheConfFromYAML(10, 10),
 		GeoData:   geoData,
 		GeoSubnet: g.subnet,
 		Upstream: dnsserver.HandlerFunc(func(ctx context.Context, rw dnsserver.ResponseWriter, req *dns.Msg) error {
